@@ -260,7 +260,7 @@ def run(ctx):
 
 
 MANIFEST_ENTRY = {
-    "technique": "static analysis: priority-chain extraction (rules/chains.py) for the main resolution, the hydrate and ssr/csr variants and the sub-context memo, compared with the documented order; the negotiation clause of C12.R0 (the header / navigator fallback is find_locale's best match, evaluated over a closed universe); MIR path enumeration (py/mirsum.py) of resolve_locale_with_options: every path answers from the call's own options and consults no other state; canonical-form comparison of the once-then helpers and cookie acquisition",
+    "technique": "static analysis: priority-chain extraction (rules/chains.py) for the main resolution, the hydrate and ssr/csr variants and the sub-context memo, compared with the documented order; the negotiation clause of C12.R0 (the header / navigator fallback is find_locale's best match, evaluated over a closed universe); MIR path enumeration (py/mirsum.py) of resolve_locale_with_options: every path answers from the call's own options and consults no other state; canonical-form comparison of the once-then helpers and cookie acquisition; the from_str clauses of C13.R0 (the cookie codec accepts exactly the configured names)",
     "level_text": "Structural, one clause: the order in which the sources of the initial locale are consulted is read off the code for each configuration (ssr / hydrate / csr / sub-context first and later runs) and compared with the documentation. What a running reactive graph shows is not applicable to static analysis and is not claimed.",
     "level_note": "Trusted: Option combinator semantics, leptos-use cookie/header handling. Not decided: run-time reactive behaviour.",
 }
